@@ -26,6 +26,7 @@ var orderHookOff bool
 type FaultVariant struct {
 	E        int  `json:"e"`                  // commit j fails position (E mod n_j)+1
 	Pair     int  `json:"pair,omitempty"`     // additionally position ((E+Pair) mod n_j)+1
+	GiveUp   bool `json:"give_up,omitempty"`  // every other commit fails once and is NOT retried: the history goes on and the next (fault-free) commit must converge
 	Attempts int  `json:"attempts,omitempty"` // persistent for the first n attempts
 	Workers  int  `json:"workers,omitempty"`
 	Flavour  string `json:"flavour,omitempty"` // force a flavour ("" = as recorded)
@@ -135,10 +136,14 @@ func execWithFaults(tr *Trace, variant FaultVariant, twin []commitPoint, stats *
 		return nil
 	}
 	ci := 0
+	gaveUp := false
 	for i := range tr.Steps {
 		st := tr.Steps[i]
 		w.StepNo = i
 		isCommit := st.Op == "commit" || st.Op == "reopen"
+		if !isCommit {
+			gaveUp = false
+		}
 		if isCommit {
 			if variant.Workers > 0 {
 				st.Workers = variant.Workers
@@ -149,6 +154,14 @@ func execWithFaults(tr *Trace, variant FaultVariant, twin []commitPoint, stats *
 			n := 0
 			if ci < len(twin) {
 				n = len(twin[ci].Writes)
+			}
+			gaveUp = false
+			if variant.GiveUp {
+				if st.Op == "commit" && ci%2 == 0 && ci+1 < len(twin) && n > 0 {
+					gaveUp = true
+				} else {
+					n = 0 // this commit runs fault-free and has to converge
+				}
 			}
 			if n > 0 {
 				f := &FaultSpec{Attempts: variant.Attempts}
@@ -168,6 +181,7 @@ func execWithFaults(tr *Trace, variant FaultVariant, twin []commitPoint, stats *
 				}
 				st.Fault = f
 				st.Retries = 4
+				st.GiveUp = gaveUp
 			}
 		}
 		var v *Violation
@@ -179,6 +193,11 @@ func execWithFaults(tr *Trace, variant FaultVariant, twin []commitPoint, stats *
 		}
 		if v != nil {
 			return v
+		}
+		if isCommit && gaveUp {
+			stats.Inc("c14.given-up")
+			ci++
+			continue
 		}
 		if isCommit {
 			if ci < len(twin) {
@@ -201,8 +220,8 @@ func init() {
 		ID: "C14", Level: "fault_enumeration",
 		Verdict: []string{"c14.", "commit.fault-swallowed", "commit.fault-category", "live.", "panic"},
 		Assumptions: []string{"positional faults of the order-relaxed commit with several workers replay exactly only in the variants that run under the controlled scheduler; the other variants use identity-based faults there"},
-		Rule: "for each sampled history (both commit flavours, reopen, multi-owner, nested) a fault-free dry run gives the number n_j of writes/deletes of every commit j; the history is then re-executed once per failing position e (commit j fails its ((e mod n_j)+1)-th write; every single position of every commit is enumerated in thorough, an evenly spread sample incl. first and last in quick), plus pairs of positions, faults persisting for 2 attempts, identity-based faults, worker counts {1,2,8} and both flavours; each failed attempt must return an external error wrapping the injected one, every change of the pre-commit write set must be pending or durable, reads must still match the model, and after retrying to success the registers must be byte-identical to the fault-free twin at that commit point and nothing owned may stay pending. Non-trivial = >= 1 failed attempt in a commit of >= 3 writes; distinct by trace hash",
-		ExpectedReach: []string{"c14.failed-attempt-checked", "c14.converged", "c14.fault-by-identity", "c14.fault-by-position", "c14.durable-after-failure", "commit.nfc", "commit.fc"},
+		Rule: "for each sampled history (both commit flavours, reopen, multi-owner, nested) a fault-free dry run gives the number n_j of writes/deletes of every commit j; the history is then re-executed once per failing position e (commit j fails its ((e mod n_j)+1)-th write; every single position of every commit is enumerated in thorough, an evenly spread sample incl. first and last in quick), plus pairs of positions, faults persisting for 2 attempts, identity-based faults, worker counts {1,2,8} and both flavours; each failed attempt must return an external error wrapping the injected one, every change of the pre-commit write set must be pending or durable, reads must still match the model, and after retrying to success the registers must be byte-identical to the fault-free twin at that commit point and nothing owned may stay pending; in 'give-up' variants a failed commit is not retried at once: the history goes on with the leftovers pending and the next, fault-free commit must converge to the twin's registers. Non-trivial = >= 1 failed attempt in a commit of >= 3 writes; distinct by trace hash",
+		ExpectedReach: []string{"c14.failed-attempt-checked", "c14.converged", "c14.fault-by-identity", "c14.fault-by-position", "c14.durable-after-failure", "commit.nfc", "commit.fc", "c14.given-up"},
 	}
 	type aux struct {
 		Variant FaultVariant `json:"variant"`
@@ -303,7 +322,9 @@ func init() {
 		}
 		for k := 0; k < extra; k++ {
 			fv := FaultVariant{E: vr.Intn(maxN), Workers: []int{1, 2, 8}[vr.Intn(3)]}
-			switch vr.Intn(5) {
+			switch vr.Intn(6) {
+			case 5:
+				fv.GiveUp = true
 			case 4:
 				fv.Sched = []string{"random", "last", "starve", "rr"}[vr.Intn(4)]
 				fv.SchedSeed = vr.U64()
